@@ -7,6 +7,7 @@ CONSTANTS
     ForeignBodies = {3}
     ForeignSerials = {"s1"}
     KeySeq <- KeySeqGen
+    Spellings <- SpellingsGen
     ZeroSerials = {"z0"}
     Impl = "intended"
     ZeroSerialPanics = FALSE
